@@ -59,7 +59,7 @@ func gohbaseGoroutines() (n int, dump string) {
 
 type c19Case struct {
 	Seed    int64
-	Point   string // instant | before-dial | during-dial | during-probe | during-meta-lookup | during-backoff | zk-failing | scanner-open | batch
+	Point   string // instant | before-dial | during-dial | during-probe | during-meta-lookup | during-backoff | zk-failing | zk-blocked | scanner-open | batch
 	Callers int
 	DelayUS int
 }
@@ -151,6 +151,14 @@ func runC19Case(c *fw.Ctx, id string, cs c19Case) {
 				return &sim.Exc{Class: sim.ExcTooBusy}
 			}
 			return nil
+		}
+	case "zk-blocked":
+		// ZooKeeper does not answer until Close has returned
+		cl.ZKBlock = hold
+		logf = func(msg string) {
+			if msg == "looking up region server of hbase:meta" && once() {
+				fire()
+			}
 		}
 	case "zk-failing":
 		var n int32
@@ -419,7 +427,7 @@ func init() {
 		Level: "exploration",
 		Rule: "runs with 1..16 callers issuing gets, puts, batches and scans while Close is issued at a hook-selected point " +
 			"{right before a dial (establisher held at its log statement until Close returned), during a dial, during the " +
-			"region probe, during a meta lookup, during retry back-off, with ZooKeeper failing, with a scanner open, during " +
+			"region probe, during a meta lookup, during retry back-off, with ZooKeeper failing, with ZooKeeper silent until after Close, with a scanner open, during " +
 			"batches} or at a seeded instant; judged: Close returns, calls in flight and later calls return with the " +
 			"client-closed error, all dialled connections closed at quiescence, no dial, no ZooKeeper lookup and no successful write on any connection " +
 			"after all calls returned (observed on the client's side), no client goroutine left, second Close harmless. distinct = close point x callers x " +
@@ -433,12 +441,12 @@ func init() {
 		},
 		Floors: func(tier string) map[string]int64 {
 			return map[string]int64{"runs": 200, "close_point_before-dial": 3, "close_point_during-dial": 3, "close_point_during-probe": 3,
-				"close_point_during-meta-lookup": 3, "close_point_during-backoff": 3, "close_point_zk-failing": 3, "close_point_instant": 20,
+				"close_point_during-meta-lookup": 3, "close_point_during-backoff": 3, "close_point_zk-failing": 3, "close_point_zk-blocked": 3, "close_point_instant": 20,
 				"calls_in_flight_at_close": 50, "post_close_calls": 60, "connections_opened": 60, "goroutine_census_checks": 50}
 		},
 		Run: func(c *fw.Ctx) {
 			r := c.Rand("c19")
-			points := []string{"before-dial", "during-dial", "during-probe", "during-meta-lookup", "during-backoff", "zk-failing", "scanner-open", "batch"}
+			points := []string{"before-dial", "during-dial", "during-probe", "during-meta-lookup", "during-backoff", "zk-failing", "zk-blocked", "scanner-open", "batch"}
 			var cases []c19Case
 			for rep := 0; rep < c.Pick(12, 80); rep++ {
 				for _, p := range points {
